@@ -32,15 +32,21 @@ type zzRewardWorld struct {
 }
 
 func zzRewardSetup(maxProvers int, sizeLo, sizeHi int64) *zzRewardWorld {
+	return zzRewardSetupOpt(maxProvers, sizeLo, sizeHi, true)
+}
+
+func zzRewardSetupOpt(maxProvers int, sizeLo, sizeHi int64, cutGauges bool) *zzRewardWorld {
 	w := &zzRewardWorld{e: zzSetupClosed()}
 	e := w.e
 	w.C = zzverif.NondetRange("released.ujkl", 0, 100_000_000_000_000_000)
 	C := w.C
-	zzverif.Override(zzPullFn, func(k Keeper, ctx sdk.Context) sdk.Coins {
-		coins := sdk.NewCoins(sdk.NewInt64Coin("ujkl", C))
-		e.bank.MintCoins(ctx, types.ModuleName, coins) // stands for the transfer out of the gauge accounts
-		return coins
-	})
+	if cutGauges {
+		zzverif.Override(zzPullFn, func(k Keeper, ctx sdk.Context) sdk.Coins {
+			coins := sdk.NewCoins(sdk.NewInt64Coin("ujkl", C))
+			e.bank.MintCoins(ctx, types.ModuleName, coins) // stands for the transfer out of the gauge accounts
+			return coins
+		})
+	}
 	// a reward block (ManageRewards is what RunRewardBlock calls at every height divisible by CheckWindow)
 	w.h = e.h
 	w.ctx = e.ctx
@@ -50,7 +56,7 @@ func zzRewardSetup(maxProvers int, sizeLo, sizeHi int64) *zzRewardWorld {
 		Owner:         "jkl1g9q5zs2pg9q5zs2pg9q5zs2pg9q5zs2p2trkks",
 		Start:         zzverif.NondetRange("file.start", 0, 1<<40),
 		Expires:       0,
-		FileSize:      zzverif.NondetRange("file.size", sizeLo, sizeHi),
+		FileSize:      zzFileSize(sizeLo, sizeHi),
 		ProofInterval: zzverif.NondetRange("file.interval", 2, 1<<40),
 		MaxProofs:     int64(maxProvers),
 		Note:          "{}",
@@ -138,4 +144,19 @@ func VH_C03_bookkeeping() {
 	}
 	zzverif.Assert(total.Le(zzverif.ZOf(w.C)), "C03/sum-paid-at-most-released")
 	zzverif.Cover("C03/reward-block-done")
+}
+
+// zzFileSize: within [1, 2^40] the size is symbolic; when the harness admits every int64 (C05) the
+// extreme classes are enumerated as concrete representatives next to the symbolic ordinary range
+// (keeps the wrap-around arithmetic concrete for the solvers).
+func zzFileSize(lo, hi int64) int64 {
+	if lo >= 1 {
+		return zzverif.NondetRange("file.size", lo, hi)
+	}
+	classes := []int64{0, -1, -5000, 1 << 62, 1<<63 - 1, -1 << 63}
+	c := zzverif.NondetLen("file.size.class", 0, len(classes))
+	if c == len(classes) {
+		return zzverif.NondetRange("file.size", 1, 1<<40)
+	}
+	return classes[c]
 }
